@@ -103,6 +103,8 @@ class Prop:
         else:
             vals = sorted(set(
                 [0, 1, (1 << 19) - 1, 1 << 19, (1 << 19) + 1, (1 << 20) - 1, (1 << 18), (1 << 18) - 1] +
+                # states that real equipment sends all day (class B "CS" units: 0x60006, with and without the selector)
+                [0x60006, 0xe0006, 0x60006 ^ 1, 393222, 917510, 49235, 2249, 81954] +
                 [(s << 19) | (a << 17) | (b << 14) | c for s in (0, 1) for a in range(4) for b in range(8)
                  for c in (0, 1, 0x3fff, 0x2aaa, 0x1555)] +
                 [rng.randrange(1 << 20) for _ in range(6000)]))
